@@ -72,7 +72,9 @@ def num(s):
 def discharge(ob):
     s = z3.Solver()
     s.set('rlimit', OB_RLIMIT)
-    s.set('timeout', 120000)          # wall-clock safety net only; the deterministic limit is rlimit
+    # wall-clock safety net only; the deterministic limit is rlimit.  A `False` goal asks for a model of the whole path
+    # condition (feasibility of an unexpected exception): kept short, the native fallback decides it otherwise
+    s.set('timeout', 8000 if z3.is_false(ob.goal) else 120000)
     for p in ob.pc:
         s.add(p)
     s.add(z3.Not(ob.goal))
@@ -266,6 +268,12 @@ def random_conc(h, n, seed):
                 continue
             except Abort:
                 pass
+            except Unmodelled:
+                raise
+            except Exception as e:
+                tb = traceback.extract_tb(e.__traceback__)
+                site = next(('%s:%d' % (f.name, f.lineno) for f in reversed(tb) if '/pyvc/' not in f.filename and '/contracts/' not in f.filename), '?')
+                c.conc_results.append(('no-unexpected-exception', 'P', False, {'exc': type(e).__name__, 'site': site, 'msg': str(e)[:160]}))
             stats['accepted'] += 1
             for cl, k, ok, m in c.conc_results:
                 e = stats['clauses'].setdefault(cl, [0, 0])
